@@ -342,6 +342,9 @@ def processCase (j : Json) : E Verdict := do
     evalLayout cfg es obs
   | "multi" => evalMulti j obs
   | "concurrent" =>
+    if let some c := fieldOpt obs "crash" then
+      let site := (fieldOpt obs "site").bind (·.getStr?.toOption) |>.getD ""
+      return (({} : Verdict).add "C15conc" false s!"concurrent calls: {c.getStr?.toOption.getD "?"}@{site}")
     let d ← jArr (← field obs "differ")
     pure (({} : Verdict).add "C15conc" d.isEmpty s!"calls {d.length} differ from their sequential result")
   | "history" => evalHistory j obs
